@@ -50,6 +50,19 @@ def response_payload(rng, rq, kt):
         return valget_response_payload(rng, kt)
     if e['kind'] == 'fixed' and not e['layout']:
         return b''
+    if rng.random() < 0.12 and e['kind'] in ('counted', 'monver'):
+        # the largest receivable answer: payload of exactly (or just below) the parser's 1000-byte limit
+        if e['kind'] == 'monver':
+            n = 32
+            return F.rand_payload_for(rng, [('swVersion', 'C30'), ('hwVersion', 'C10')] + [(f'extension_{i}', 'C30') for i in range(n)])
+        hdr = sum(F.tok_width(t) for _, t in e['hdr'])
+        blk = sum(F.tok_width(t) for _, t in e['blk'])
+        cmax = e['maxc'] if e['maxc'] is not None else 255
+        c = min(cmax, (1000 - hdr) // blk)
+        hp = bytearray(F.rand_payload_for(rng, e['hdr']))
+        off = sum(F.tok_width(t) for n_, t in e['hdr'][:[n_ for n_, _ in e['hdr']].index(e['count'])])
+        hp[off] = c
+        return bytes(hp) + F.rand_payload_for(rng, [(f'{n_}_{i}', t) for i in range(c) for n_, t in e['blk']])
     while True:
         _, pay = wf_payload(rng, e)
         if len(pay) <= 1000:        # the parser's MAX_MESSAGE_LENGTH: longer answers cannot be received at all
@@ -95,6 +108,11 @@ def all_requests(rng, mt, kt):
     reqs.append(Req('set', 'UbxCfgValSetAction',
                     lambda: VS([CfgKeyData.from_key(0x20110021, 4), CfgKeyData.from_key(0x3006002e, -100), CfgKeyData.from_key(0x10310001, True)]),
                     mt['UbxCfgValSetAction']['cid']))
+    # a large VALSET (payload >= 255 bytes: two-byte length field really used)
+    big = [(rng.choice([0x40520001, 0x4005000d, 0x4006002d]), rng.getrandbits(32)) for _ in range(rng.choice([32, 48, 64]))]
+    reqs.append(Req('set', 'UbxCfgValSetAction(big)', lambda big=big: VS([CfgKeyData.from_key(k, v) for k, v in big]), mt['UbxCfgValSetAction']['cid']))
+    # an application-defined poll whose response class shares the class/id of a library class (CFG-PRT, other port type)
+    reqs.append(app_defined_poll(mt))
     UT = mt['UbxMgaIniTimeUtc']['cls']
 
     def utc():
@@ -110,6 +128,46 @@ def all_requests(rng, mt, kt):
         return fr
     reqs.append(Req('fire', 'UbxCfgRstAction', rst, mt['UbxCfgRstAction']['cid']))
     return reqs
+
+
+_APP = {}
+
+
+def app_defined_poll(mt):
+    """CFG-PRT for a USB port: an application-defined response layout under the library's CFG-PRT class/id."""
+    from ubxlib.cid import UbxCID
+    from ubxlib.frame import UbxFrame
+    from ubxlib.types import U1, X2, Padding
+    if 'resp' not in _APP:
+        class AppCfgPrtUsb(UbxFrame):
+            CID = UbxCID(6, 0)
+            NAME = 'APP-CFG-PRT-USB'
+
+            def __init__(self):
+                super().__init__()
+                self.f.add(U1('PortId'))
+                self.f.add(Padding(1, 'res0'))
+                self.f.add(X2('txReady'))
+                self.f.add(Padding(8, 'res1'))
+                self.f.add(X2('inProtoMask'))
+                self.f.add(X2('outProtoMask'))
+                self.f.add(Padding(4, 'res2'))
+
+        class AppCfgPrtUsbPoll(UbxFrame):
+            CID = UbxCID(6, 0)
+            NAME = 'APP-CFG-PRT-USB-POLL'
+
+            def __init__(self):
+                super().__init__()
+                self.f.add(U1('PortId'))
+                self.f.PortId = 3
+
+            def _cls_response(self):
+                return AppCfgPrtUsb
+        _APP['resp'], _APP['poll'] = AppCfgPrtUsb, AppCfgPrtUsbPoll
+    lay = [('PortId', 'U1'), ('res0', 'P1'), ('txReady', 'X2'), ('res1', 'P8'), ('inProtoMask', 'X2'), ('outProtoMask', 'X2'), ('res2', 'P4')]
+    entry = {'kind': 'fixed', 'layout': lay, 'cls': _APP['resp']}
+    return Req('poll', 'AppCfgPrtUsbPoll', _APP['poll'], (6, 0), 'AppCfgPrtUsb', 'F/' + R.layout_str(lay), entry)
 
 
 def good_answer(rng, rq, kt, variant=None):
